@@ -243,7 +243,29 @@ def history_case(ctx, LP, rng, nops):
         else:
             ops.append("zero:%d" % dst)
     d = ctx.driver()
-    mo = d.ask("lp.hist 4 %s %s" % (" ".join(enc(c, dm) for c, dm in regs_spec), " ".join(ops)))
+    # in-place rounding of one register in the middle of the history (an aliasing between
+    # registers would show in the OTHER registers at the end)
+    if nops >= 2 and rng.random() < 0.5:
+        ops.insert(int(rng.integers(1, len(ops))), "round:%d:%s" % (int(rng.integers(0, 4)), rs(F(float(rng.choice([0.75, 1.5, 2.5]))))))
+    # the model runs the ring operations in segments; `round` is applied to the register between segments
+    cur = [enc(c, dm) for c, dm in regs_spec]
+    mo, seg, base = None, [], 0
+    for i, o in enumerate(ops + ["end"]):
+        if o.startswith("round:") or o == "end":
+            r = d.ask("lp.hist 4 %s %s" % (" ".join(cur), " ".join(seg))) if seg else "ok " + " ".join(cur)
+            if not r.startswith("ok"):
+                tag, at = r.split("@")
+                mo = "%s@%d" % (tag, base + int(at))
+                break
+            cur = r.split()[1:]
+            if o != "end":
+                _, reg, t = o.split(":")
+                cur[int(reg)] = d.ask("lp.round %s %s" % (t, cur[int(reg)]))
+            seg, base = [], i + 1
+        else:
+            seg.append(o)
+    if mo is None:
+        mo = "ok " + " ".join(cur)
     regs = [mk(LPoly, c, dm) for c, dm in regs_spec]
     status, fail_at = "ok", None
     for i, o in enumerate(ops):
@@ -264,6 +286,8 @@ def history_case(ctx, LP, rng, nops):
                     regs[int(t[1])] = regs[int(t[2])] * float(pr(t[3]))
                 elif t[0] == "trunc":
                     regs[int(t[1])] = LPoly.truncate(regs[int(t[2])], int(t[3]), int(t[4]))
+                elif t[0] == "round":
+                    regs[int(t[1])].round_zeros(float(pr(t[2])))
                 else:
                     regs[int(t[1])] = LPoly([])
         except AssertionError:
@@ -357,7 +381,7 @@ def run(tier, seed):
     ctx.axioms = core.audit(ctx.modules)
     import pyqsp.LPoly as LP
     ncases = 2500 if tier == "quick" else 25000
-    nhist = 250 if tier == "quick" else 3000
+    nhist = 500 if tier == "quick" else 5000
     ninf = 40 if tier == "quick" else 400
     # corpus first
     for path in core_corpus():
